@@ -527,6 +527,9 @@ def _run_bgcounts(case, ck):
         rawv = (10 + (7 * i + 3 * j) % 23).astype(dt)      # 10..32
         bgv = (100 + (5 * i + j) % 50).astype(dt)          # 100..149
         dkv = (12 + (i + 2 * j) % 9).astype(dt)            # 12..20
+        # one interior pixel where the background frame is darker than the
+        # dark frame (read noise): a negative, not a dead, denominator
+        dkv[nx // 2, ny // 2] = bgv[nx // 2, ny // 2] + 25
         for dark in (True, False):
             what = "bg_correct(%s counts, dark=%s, %dx%d)" % (dt, dark, nx,
                                                               ny)
